@@ -23,6 +23,14 @@ func suiteNode(c *Ctx) {
 		scenarioLaggard(c, n, ws, 100, i)
 		c.Class("scenario/laggard")
 	}
+	for i := 0; i < 3; i++ {
+		scenarioCommitsFirst(c, 4+i, uint64(100+i))
+		c.Class("scenario/commits-first")
+	}
+	for i := 0; i < 4; i++ {
+		scenarioElectedWhileBehind(c, 4+i%3, uint64(100+i), 1+i%3)
+		c.Class("scenario/elected-while-behind")
+	}
 	for i := 0; i < nsc; i++ {
 		n := 4 + r.Intn(4)
 		ws := make([]uint64, n)
@@ -145,5 +153,78 @@ func scenarioLaggard(c *Ctx, n int, ws []uint64, inst uint64, lag int) *Net {
 			}
 		}
 	}
+	return net
+}
+
+
+// commits-first: one node receives the proposal, then a commit quorum (its commit callback fails),
+// and only then the PREPAREs: the commit path is entered twice (from the COMMITs and from becoming prepared).
+func scenarioCommitsFirst(c *Ctx, n int, inst uint64) *Net {
+	ws := make([]uint64, n)
+	for k := range ws {
+		ws[k] = 1
+	}
+	net := NewNet(c, NetOpts{N: n, Weights: ws, Inst: inst}, fmt.Sprintf("commits-first n=%d", n))
+	net.start()
+	L := net.order[n-1]
+	var held []*Flight
+	for guard := 0; guard < 2000 && len(net.pool) > 0; guard++ {
+		f := net.pool[0]
+		net.pool = net.pool[1:]
+		if string(f.To) == string(L.Id) {
+			held = append(held, f)
+			continue
+		}
+		if uint64(interfaces.ToConsensusMessage(f.Raw).BlockHeight()) > 1 {
+			continue
+		}
+		net.deliverFlight(f)
+	}
+	typ := func(f *Flight) string { return fmt.Sprintf("%T", interfaces.ToConsensusMessage(f.Raw)) }
+	for _, want := range []string{"*interfaces.PreprepareMessage", "*interfaces.CommitMessage", "*interfaces.PrepareMessage"} {
+		for _, f := range held {
+			if typ(f) == want && uint64(interfaces.ToConsensusMessage(f.Raw).BlockHeight()) == 1 {
+				if want == "*interfaces.CommitMessage" {
+					L.CommitCbFails = true
+				}
+				net.deliverFlight(f)
+				L.CommitCbFails = false
+			}
+		}
+	}
+	return net
+}
+
+// elected-while-behind: a node still in view 0 collects a quorum of VIEW_CHANGE votes for a view it
+// leads, and while it asks the consumer for a block the (late) election trigger of an older view is
+// handled by the main loop.
+func scenarioElectedWhileBehind(c *Ctx, n int, inst uint64, cancelKind int) *Net {
+	ws := make([]uint64, n)
+	for k := range ws {
+		ws[k] = 1
+	}
+	net := NewNet(c, NetOpts{N: n, Weights: ws, Inst: inst}, fmt.Sprintf("elected-while-behind n=%d cancel=%d", n, cancelKind))
+	net.start()
+	net.pool = nil // the view-0 proposal is lost
+	target := 1 + net.r.Intn(2)
+	L := net.nodes[string(net.members[target%n].Id)]
+	for v := 0; v < target; v++ {
+		for _, o := range net.order {
+			if o != L {
+				net.timeout(o, false)
+			}
+		}
+		if v < target-1 {
+			net.pool = nil
+		}
+	}
+	L.CancelDuring = cancelKind
+	for _, f := range net.pool {
+		if string(f.To) == string(L.Id) {
+			net.deliverFlight(f)
+		}
+	}
+	L.CancelDuring = 0
+	net.pool = nil
 	return net
 }
